@@ -39,6 +39,13 @@ CLAIMS = {
                 text='Every step of every explored operation sequence (Make/AddConnection/Union/Intersection/Subtract/Copy on 2-3 registers) must be the set-algebra step on denotations: updated register exact, other registers unchanged, no shared pointers, '
                      'IsEmpty/IsAllConnections/Contains/String/Equal/ContainedIn consistent with denotations, ranges canonical. All sequences of 3 (quick) / 4 (thorough) operations over a 26-operation catalogue are enumerated; longer random walks and seeded sequences over 9 port chunks are sampled.', ref='6/C11',
                 note='Trusted: TLC, Json module, ConnSetModel.tla (named ports as atoms; a name is covered by a set holding it or by a full range; name part of Intersection, and completeness of Equal/ContainedIn/all-recognition in presence of excluded-named-port bookkeeping, left unspecified). Hook: pkg/netpol/verifshim (type aliases only).'),
+    'C12': dict(cat='fault_enumeration', tech='mutation space enumerated exhaustively by TLC (Mutation.tla over the field schema derived from the seed manifests); every case applied and run through list / list --fail / list --exposure / diff (both sides) / eval + engine updates under recover() and a timeout (thorough: also the built binary); outcomes validated by TLC (MutationTrace.tla)',
+                text='Every single structural mutation (drop, null, retype, empty, class-specific foreign values such as IPv6 / garbage addresses, out-of-range numbers, unknown protocol/action/operator/kind, reserved names) of every field of the seed manifests and 8 file-level corruptions per file must end in a result or an error, never a panic or hang; thorough adds all pairs within one document and the CLI. '
+                     'Structural/lexical classes, not all byte contents.', ref='6/C12',
+                note='The space is an enumeration of mutation classes over one seed directory, not all byte contents. Trusted: TLC, Json/IOUtils modules, Go recover().'),
+    'C13': dict(tech='TLA+ state machine of the processing pipeline (Pipeline.tla: scan with extension filter and per-file abort, per-document conversion, stop-on-error, engine build, analysis) model-checked for the four clauses over every scenario; every scenario materialised and run through list and diff (either side); outcomes validated by TLC (PipelineTrace.tla) against the clauses and the model\'s predicted outcome',
+                text='For all directories made of 3 layouts of 4 good documents with up to 2 (quick) / 3 (thorough) injected items of the classes named in the property x stopOnError x {list, diff dir1, diff dir2}: connections equal the baseline of the good documents alone, every malformed/unreadable item yields a severe entry (attributable to its file for list), stop-on-error yields no connections, a fatal conflict yields an error and no result, and the outcome class equals the one predicted by the pipeline machine.', ref='6/C13',
+                note='Concrete junk per class comes from a small catalogue. A syntactically broken document inside a good multi-document file is excluded (the resource builder abandons the rest of that file; named ScanFileAbort in the model). Attribution to a file is demanded for list only.'),
     'C14': dict(tech='edge laws (Laws.tla) attached to Cluster.tla actions: TLC checks them on the reference (LawsCheck) and ReplayTrace asserts them on the two real reports of every edge',
                 text='Additivity, locality and re-spelling invariance asserted oracle-free on pairs of real reports for every AddRule/AddPolicy/Respell*/Split* edge of TLC-generated behaviours; the laws themselves are TLC-checked consequences of the reference.', ref='6/C14'),
     'C15': dict(tech='TLA+ model of the engine as current objects (EngineModel.tla) + history generator (Engine.tla: TLC random walks and exhaustive short histories) replayed on a real eval.PolicyEngine; recorded histories validated by TLC (EngineTrace.tla) against the model and against a fresh engine',
